@@ -606,6 +606,101 @@ def check_subcircuit(case):
                        'replacement': build.bench_text({'inputs': rep['inputs'], 'gates': rep['gates'], 'outputs': rep['outputs']})}}
 
 
+# ---------------------------------------------------------------------------
+# deep circuits: the same rewrites on chains of hundreds to thousands of gates (finite sweep)
+
+DEEP = {'quick': [120, 500, 1200, 2400], 'thorough': [120, 500, 900, 1000, 1100, 1200, 2400, 5000]}
+DEEP_OPS = ['replace_subcircuit', 'rename_bottom', 'rename_top', 'remove_top', 'replace_inputs']
+
+
+def deep_host(d):
+    gates = [['a', 'INPUT', []], ['b', 'INPUT', []], ['g0', 'AND', ['a', 'b']]]
+    prev = 'g0'
+    for i in range(1, d + 1):
+        gates.append([f'n{i}', 'NOT', [prev]] if i % 7 else [f'n{i}', 'XOR', [prev, 'b']])
+        prev = f'n{i}'
+    gates += [['out', 'OR', [prev, 'b']], ['spare', 'NOT', ['out']]]
+    return {'inputs': ['a', 'b'], 'gates': gates, 'outputs': ['out', 'g0'], 'style': 'plain'}
+
+
+def run_deep(case):
+    core = cirbo_core()
+    d, op = case['d'], case['op']
+    nl = deep_host(d)
+    c = build.build(nl)
+    t0 = refsem.tables(nl)
+    want = [t0[o] for o in nl['outputs']]
+    what = f'{op} on a chain of {d} gates'
+    exp_inputs, exp_n_out = ['a', 'b'], 2
+    try:
+        if op == 'replace_subcircuit':
+            # the whole chain n1..nd, cut at g0 / b, root nd: replaced by an independently built equivalent
+            cone = {'inputs': ['g0', 'b'], 'gates': [['g0', 'INPUT', []], ['b', 'INPUT', []]] + [list(g) for g in nl['gates'][3:3 + d]],
+                    'outputs': [f'n{d}']}
+            tc = refsem.tables(cone)[f'n{d}']
+            sub_nl = _reed_muller_netlist(2, [tc], 'dp_')
+            # (the replacement names its inputs like the cut points they stand for: mapped host gates take the replacement's labels)
+            r = dict(zip(sub_nl['inputs'], ['g0', 'b']))
+            sub_nl = {'inputs': ['g0', 'b'], 'gates': [[r.get(l, l), t, [r.get(o, o) for o in ops]] for l, t, ops in sub_nl['gates']],
+                      'outputs': [r.get(o, o) for o in sub_nl['outputs']]}
+            sub = build.build(sub_nl)
+            c.replace_subcircuit(sub, dict(zip(['g0', 'b'], sub_nl['inputs'])), {f'n{d}': sub_nl['outputs'][0]})
+        elif op == 'rename_bottom':
+            c.rename_gate('g0', 'renamed_bottom')
+            want = want
+        elif op == 'rename_top':
+            c.rename_gate(f'n{d}', 'renamed_top')
+        elif op == 'remove_top':
+            c.remove_gate('spare')
+        else:
+            c.replace_inputs(['a'], [])
+            exp_inputs = ['b']
+            want = None
+    except core.CirboError as e:
+        raise Violation('deep:valid_request_rejected', f'{what} raised {type(e).__name__}: {e}')
+    pr = wellformed.problems(c)
+    if pr:
+        raise Violation('deep:wellformed', f'after {what}: ' + '; '.join(pr[:3]))
+    if list(c.inputs) != exp_inputs or len(c.outputs) != exp_n_out:
+        raise Violation('deep:interface', f'after {what}: inputs {list(c.inputs)}, {len(c.outputs)} outputs')
+    res = refsem.from_circuit(c)
+    try:
+        got = refsem.out_tables(res)
+    except (refsem.ArityError, ValueError, KeyError, AssertionError) as e:
+        raise Violation('deep:result_malformed', f'after {what}: {e}')
+    if want is None:
+        # a := True: rows of the original table with a = 1 (a is the first input)
+        full = [t0[o] for o in nl['outputs']]
+        want = [sum((((v >> (2 + j)) & 1) << j) for j in range(2)) for v in full]
+    if got != want:
+        raise Violation('deep:function', f'after {what}: output tables {got} expected {want}')
+    n = len(exp_inputs)
+    for j in range(1 << n):
+        x = [bool((j >> (n - 1 - i)) & 1) for i in range(n)]
+        if c.evaluate(x) != [bool((w >> j) & 1) for w in want]:
+            raise Violation('deep:evaluate', f'after {what}: evaluate({x})')
+    return d
+
+
+def deep_sweep(tier, shard, nshards, seed):
+    done = 0
+    sample = None
+    for idx, case in enumerate([{'d': d, 'op': op} for d in DEEP[tier] for op in DEEP_OPS]):
+        if idx % nshards != shard:
+            continue
+        try:
+            run_deep(case)
+        except Violation as v:
+            v.case = case
+            raise
+        except BaseException as e:  # noqa
+            e.case = case
+            raise
+        done += 1
+        sample = case
+    return {'evaluations': done, 'distinct_nontrivial': done, 'exhaustive': True, 'samples': [sample] if sample else []}
+
+
 SPEC = {
     'id': 'C19',
     'rule': ('rename_gate: every kind of gate x fresh / existing / absent / same label on circuits with blocks - expected '
@@ -619,12 +714,14 @@ SPEC = {
              'truth table, interface and well-formedness kept; injected faults (unlisted fan-out, non-input mapped, '
              'missing input, label collision, overlapping keys) must raise a CircuitError or still keep the function. '
              'Non-trivial: touched gate has users or is an output; cone of >=2 gates.'
-             ' Added during the build: whole-list and live-list replace_inputs, a look at the circuit before and a rename after replace_inputs, replacements reading a gate downstream of the cone, unmarked mapped outputs, cones in dead logic, construction routes for the replacement circuit, crossed output labels, constructive non-convex cuts.'),
+             ' Added during the build: whole-list and live-list replace_inputs, a look at the circuit before and a rename after replace_inputs, replacements reading a gate downstream of the cone, unmarked mapped outputs, cones in dead logic, construction routes for the replacement circuit, crossed output labels, constructive non-convex cuts, and a finite sweep of the four rewrites on chains of 120-2400 (5000) gates.'),
     'assumptions': ['reference tables / snapshots from vlib'],
     'subs': [Sub('rename', rename_cases, check_rename, {'quick': 1500, 'thorough': 100000}),
              Sub('replace_inputs', repl_inputs_cases, check_replace_inputs, {'quick': 1000, 'thorough': 75000}),
              Sub('remove_gate', remove_cases, check_remove, {'quick': 1000, 'thorough': 75000}),
              Sub('replace_subcircuit', subcircuit_cases, check_subcircuit, {'quick': 2000, 'thorough': 150000})],
+    'sharded': {'deep': deep_sweep},
+    'replay': {'deep': run_deep},
     'required_classes': {'rename': ['has_users', 'is_output', 'repeated_output', 'is_input', 'in_block', 'mode:existing',
                                     'mode:absent', 'dup_operand_use'],
                          'replace_inputs': ['both', 'non_input_rejected', 'live_inputs_list', 'all_fixed'],
